@@ -36,16 +36,22 @@ def hashes(repo):
             p = os.path.join(d, f); rel = os.path.relpath(p, root)
             try: L = open(p, errors='replace').read().split('\n')
             except OSError: continue
+            def h(lines):
+                t = '\n'.join(lines)
+                t = re.sub(r'/\*.*?\*/', ' ', t, flags=re.S); t = re.sub(r'//[^\n]*', ' ', t); t = re.sub(r'\s+', ' ', t)
+                return hashlib.sha256(t.encode()).hexdigest()[:20]
+            whole = h(L)
             for lo, hi in cov.get(rel, []):
                 for k in range(lo - 1, min(hi, len(L))): L[k] = ''
-            t = '\n'.join(L)
-            t = re.sub(r'/\*.*?\*/', ' ', t, flags=re.S); t = re.sub(r'//[^\n]*', ' ', t); t = re.sub(r'\s+', ' ', t)
-            out[rel] = hashlib.sha256(t.encode()).hexdigest()[:20]
+            out[rel] = [h(L), whole]          # [code outside every unit, the whole header]
     return out
 
 def changed(repo):
-    """headers whose code outside every unit differs from the recorded baseline (None if there is no baseline)"""
+    """(headers whose code outside every unit differs from the recorded baseline, headers that differ at all); (None, None) without a baseline"""
     try: base = json.load(open(BASELINE))['hashes']
-    except (OSError, ValueError, KeyError): return None
+    except (OSError, ValueError, KeyError): return None, None
     cur = hashes(repo)
-    return sorted(h for h in set(base) | set(cur) if base.get(h) != cur.get(h))
+    keys = set(base) | set(cur)
+    unc = sorted(h for h in keys if (base.get(h) or [None, None])[0] != (cur.get(h) or [None, None])[0])
+    anyc = sorted(h for h in keys if base.get(h) != cur.get(h))
+    return unc, anyc
